@@ -35,6 +35,11 @@ SameLines(shown, expected) ==
     /\ Len(shown) = Len(expected)
     /\ \A i \in DOMAIN shown : shown[i] = expected[i]
 Chars(line) == [i \in DOMAIN line |-> line[i][1]]
+\* the cells of a list of lines that show something (not a blank), in order - what survives re-wrapping
+RECURSIVE Cat(_)
+Cat(ls) == IF ls = <<>> THEN <<>> ELSE Head(ls) \o Cat(Tail(ls))
+NotBlank(cell) == cell[1] # 32
+Ink(ls) == SelectSeq(Cat(ls), NotBlank)
 SameChars(shown, expected) ==
     /\ Len(shown) = Len(expected)
     /\ \A i \in DOMAIN shown : Chars(shown[i]) = Chars(expected[i])
